@@ -176,6 +176,7 @@ class Result:
         self.probe_before = None
         self.probe_after = None
         self.switches = 0           # hand-overs at yield points (preemptions)
+        self.locs = None            # per thread: (file, function, line) per yield
 
     def key(self):
         s = json.dumps([self.start, self.trace], default=repr)
@@ -238,6 +239,10 @@ class Scheduler:
             # not a worker, or a worker inside the scheduler's own bookkeeping
             # (start-up, probe, finish): never a yield point
             return None
+        if st.locs is not None:
+            # where each yield point of each worker is (first-use analysis)
+            st.locs[tid].append(
+                (code.co_filename[len(self.prefix):], code.co_name, line))
         self._yield_point(st, tid)
         return None
 
@@ -289,7 +294,7 @@ class Scheduler:
                         (st.step, k, seen.get(k), now.get(k)))
 
     # -- run one schedule ------------------------------------------------
-    def run(self, thunks, policy, probe=None, timeout=60.0):
+    def run(self, thunks, policy, probe=None, timeout=60.0, record_locs=False):
         assert self.installed
         n = len(thunks)
         st = _State()
@@ -305,6 +310,8 @@ class Scheduler:
         st.ready = 0
         st.parked_view = {}
         st.last_probe = None
+        st.locs = [[] for _ in range(n)] if record_locs else None
+        res.locs = st.locs
         res.outcomes = [None] * n
         res.errors = [None] * n
         res.foreign = [[] for _ in range(n)]
